@@ -2,10 +2,11 @@
 //! unit: V-C02-column-iter
 //! tier: quick
 //! fns: linfa::dataset::iter::DatasetIter::next (per-target / per-feature iteration: which column, which name, which weights)
-//@ extract NEXT from src/dataset/iter.rs anchor "if !self.target_or_feature && self.dataset.ntargets() <= self.idx {" until "#[derive(Clone, Debug)]"
+//@ extract NEXT from src/dataset/iter.rs anchor "if !self.target_or_feature && " until "#[derive(Clone, Debug)]"
 //@ rewrite NEXT "Vec::new()" => "NamesTok::none()"
-//@ rewrite NEXT "vec![self.dataset.target_names[self.idx].clone()]" => "self.dataset.target_names.single(self.idx)"
-//@ rewrite NEXT "vec![self.dataset.feature_names[self.idx].clone()]" => "self.dataset.feature_names.single(self.idx)"
+//@ rewrite NEXT "vec![self.dataset.target_names[" => "self.dataset.target_names.single("
+//@ rewrite NEXT "vec![self.dataset.feature_names[" => "self.dataset.feature_names.single("
+//@ rewrite NEXT "].clone()]" => ")"
 //@ rewrite NEXT "Axis(1)" => "Axis1"
 //@ rewrite NEXT "let dataset_view = DatasetBase {" => "let dataset_view = DatasetV {"
 //@ expect-fail vacuity_guard_next
